@@ -30,13 +30,13 @@ Fixpoint wfq (e : expr) {struct e} : bool :=
       if is_call_handler n then
         match args, kwn, kwv with
         | [s; Lambda ps b], [], [] =>
-            wfq s && wfq b && (negb (String.eqb n "SelectMany") || negb (is_nil ps))
+            wfq s && (negb (has_dup ps) && wfq b) && (negb (String.eqb n "SelectMany") || negb (is_nil ps))
         | _, _, _ => false
         end
       else if String.eqb n "First" then negb (is_nil args) && all args && all kwv
       else all args && all kwv
   | Call f args _ kwv => wfq f && all args && all kwv
-  | Lambda _ b => wfq b
+  | Lambda ps b => negb (has_dup ps) && wfq b
   | UnaryOp _ a => wfq a
   | BinOp _ l r => wfq l && wfq r
   | BoolOp _ es => all es
@@ -45,8 +45,7 @@ Fixpoint wfq (e : expr) {struct e} : bool :=
   | Tuple es | List es => all es
   | Dict ks vs => Nat.eqb (length ks) (length vs) && all ks && all vs
   | Subscript v i => wfq v && wfq i
-  | ListComp a gs | GenExp a gs => wfq a && all gs
-  | CompFor t i ifs _ => wfq t && wfq i && all ifs
+  | ListComp _ _ | GenExp _ _ | CompFor _ _ _ _ => false      (* sugar is lowered before the simplifier runs *)
   | Other _ _ cs => all cs
   end.
 
@@ -145,11 +144,16 @@ Proof. cbn [wfq]. rewrite arg_name_not_op. reflexivity. Qed.
 Lemma handler_cases n : is_call_handler n = true -> n = "Select" \/ n = "SelectMany" \/ n = "Where".
 Proof. apply is_call_handler_spec. Qed.
 
+Lemma wfq_lam_iff ps b : wfq (Lambda ps b) = true <-> has_dup ps = false /\ wfq b = true.
+Proof.
+  cbn [wfq]. rewrite andb_true_iff, negb_true_iff. tauto.
+Qed.
+
 Lemma wfq_op n s ps b :
-  is_call_handler n = true -> wfq s = true -> wfq b = true -> (n = "SelectMany" -> ps <> []) ->
+  is_call_handler n = true -> wfq s = true -> has_dup ps = false -> wfq b = true -> (n = "SelectMany" -> ps <> []) ->
   wfq (function_call n [s; Lambda ps b]) = true.
 Proof.
-  intros Hn Hs Hb Hp. unfold function_call. cbn [wfq]. rewrite Hn, Hs, Hb. cbn [andb].
+  intros Hn Hs Hd Hb Hp. unfold function_call. cbn [wfq]. rewrite Hn, Hs, Hd, Hb. cbn [andb negb].
   destruct (String.eqb n "SelectMany") eqn:E; [|reflexivity].
   apply String.eqb_eq in E. specialize (Hp E). destruct ps; [contradiction | reflexivity].
 Qed.
@@ -158,16 +162,16 @@ Lemma wfq_First s : wfq s = true -> wfq (function_call "First" [s]) = true.
 Proof. intros H. unfold function_call. cbn [wfq]. unfold is_call_handler. rewrite handlers_pinned. cbn. rewrite H. reflexivity. Qed.
 
 Lemma wfq_make_Select s sel ps b :
-  sel = Lambda ps b -> wfq s = true -> wfq b = true -> wfq (make_Select s sel) = true.
+  sel = Lambda ps b -> wfq s = true -> has_dup ps = false -> wfq b = true -> wfq (make_Select s sel) = true.
 Proof.
-  intros -> Hs Hb. unfold make_Select. destruct (lambda_is_identity (Lambda ps b)); [assumption|].
+  intros -> Hs Hd Hb. unfold make_Select. destruct (lambda_is_identity (Lambda ps b)); [assumption|].
   apply wfq_op; try assumption; [reflexivity | discriminate].
 Qed.
 
 (* a well-formed term that is a call of a handler has the canonical shape *)
 Lemma wfq_handler_shape p n :
   wfq p = true -> is_call_of p n = true -> is_call_handler n = true ->
-  exists s ps b, p = Call (Name n) [s; Lambda ps b] [] [] /\ wfq s = true /\ wfq b = true /\ (n = "SelectMany" -> ps <> []).
+  exists s ps b, p = Call (Name n) [s; Lambda ps b] [] [] /\ wfq s = true /\ has_dup ps = false /\ wfq b = true /\ (n = "SelectMany" -> ps <> []).
 Proof.
   intros Hw Hc Hn. destruct p; try discriminate. destruct p; try discriminate.
   simpl in Hc. apply String.eqb_eq in Hc; subst id.
@@ -175,6 +179,7 @@ Proof.
   destruct args as [|s [|l rest]]; try discriminate. destruct l; try discriminate. destruct rest; try discriminate.
   destruct kwn; try discriminate. destruct kwv; try discriminate.
   apply andb_true_iff in Hw. destruct Hw as [Hw Hp]. apply andb_true_iff in Hw. destruct Hw as [Hs Hb].
+  apply andb_true_iff in Hb. destruct Hb as [Hd Hb]. apply negb_true_iff in Hd.
   exists s, ps, l. repeat split; try assumption.
   intros -> ->. simpl in Hp. discriminate.
 Qed.
@@ -269,7 +274,8 @@ Proof.
               ** cbn [wfq]. rewrite Hh, Hf. rewrite !Hargs by assumption. reflexivity.
               ** unfold opname in Hy. apply orb_false_iff in Hy. destruct Hy as [Hy1 Hy2]. cbn [wfq]. rewrite Hy1, Hy2. rewrite !Hargs by assumption. reflexivity.
            ++ cbn [wfq]. rewrite Hh, Hf. rewrite !Hargs by assumption. reflexivity.
-  - (* Lambda *) cbn [wfq] in *. apply IHe; [apply ren_ok_app_id; assumption | assumption].
+  - (* Lambda *) cbn [wfq] in *. apply andb_true_iff in Hw. destruct Hw as [Hd Hb]. rewrite Hd. cbn [andb].
+    apply IHe; [apply ren_ok_app_id; assumption | assumption].
   - (* UnaryOp *) cbn [wfq] in *. apply IHe; assumption.
   - (* BinOp *) cbn [wfq] in *. apply andb_true_iff in Hw. destruct Hw. rewrite IHe1, IHe2 by assumption. reflexivity.
   - (* BoolOp *) cbn [wfq] in *. apply wfq_all_map_rename; assumption.
@@ -284,12 +290,6 @@ Proof.
     apply andb_true_iff in Hw. destruct Hw as [Hw Hv]. apply andb_true_iff in Hw. destruct Hw as [Hl Hk]. rewrite Hl. cbn [andb].
     rewrite (wfq_all_map_rename m _ H Hm Hk), (wfq_all_map_rename m _ H0 Hm Hv). reflexivity.
   - (* Subscript *) cbn [wfq] in *. apply andb_true_iff in Hw. destruct Hw. rewrite IHe1, IHe2 by assumption. reflexivity.
-  - (* ListComp *) cbn [wfq] in *. apply andb_true_iff in Hw. destruct Hw as [Hl Hr]. rewrite IHe by assumption.
-    rewrite (wfq_all_map_rename m _ H Hm Hr). reflexivity.
-  - (* GenExp *) cbn [wfq] in *. apply andb_true_iff in Hw. destruct Hw as [Hl Hr]. rewrite IHe by assumption.
-    rewrite (wfq_all_map_rename m _ H Hm Hr). reflexivity.
-  - (* CompFor *) cbn [wfq] in *. apply andb_true_iff in Hw. destruct Hw as [Hw Hr]. apply andb_true_iff in Hw. destruct Hw.
-    rewrite IHe1, IHe2 by assumption. rewrite (wfq_all_map_rename m _ H Hm Hr). reflexivity.
   - (* Other *) cbn [wfq] in *. apply wfq_all_map_rename; assumption.
 Qed.
 
@@ -314,13 +314,31 @@ Qed.
 Lemma ren_ok_fresh ps n c : ren_ok (rev (combine ps (fresh_names n c))).
 Proof. intros x y H. right. eapply fresh_names_not_op. eapply ren_lookup_combine_in; eassumption. Qed.
 
+Lemma fresh_names_in n c y : In y (fresh_names n c) -> exists k, c <= k /\ y = arg_name k.
+Proof.
+  revert c; induction n as [|n IH]; simpl; intros c H; [contradiction|].
+  destruct H as [<-|H]; [exists c; split; [lia | reflexivity]|].
+  destruct (IH _ H) as (k & Hk & ->). exists k; split; [lia | reflexivity].
+Qed.
+
+Lemma fresh_names_nodup n c : has_dup (fresh_names n c) = false.
+Proof.
+  revert c; induction n as [|n IH]; intros c; cbn [fresh_names has_dup]; [reflexivity|].
+  rewrite IH, orb_false_r.
+  destruct (existsb (String.eqb (arg_name c)) (fresh_names n (S c))) eqn:E; [|reflexivity].
+  apply existsb_exists in E. destruct E as (y & Hy & Heq). apply String.eqb_eq in Heq; subst y.
+  destruct (fresh_names_in _ _ _ Hy) as (k & Hk & Heq). apply arg_name_inj in Heq. lia.
+Qed.
+
 Lemma wfq_make_args_unique ps b c :
   wfq b = true ->
-  exists fs b', make_args_unique ps b c = (Lambda fs b', c + length ps) /\ wfq b' = true /\ length fs = length ps.
+  exists fs b', make_args_unique ps b c = (Lambda fs b', c + length ps) /\ wfq b' = true /\ length fs = length ps
+                /\ has_dup fs = false.
 Proof.
-  intros Hb. unfold make_args_unique. eexists; eexists; split; [reflexivity|]. split.
+  intros Hb. unfold make_args_unique. eexists; eexists; split; [reflexivity|]. split; [|split].
   - apply wfq_rename; [apply ren_ok_fresh | assumption].
   - apply fresh_names_length.
+  - apply fresh_names_nodup.
 Qed.
 
 Lemma wfq_convolute gps gb fps fb c :
@@ -328,10 +346,10 @@ Lemma wfq_convolute gps gb fps fb c :
   exists cv c', convolute (Lambda gps gb) (Lambda fps fb) c = Ok (cv, c') /\ wfq cv = true.
 Proof.
   intros Hg Hf. unfold convolute.
-  destruct (wfq_make_args_unique gps gb c Hg) as (gs & gb' & Eg & Hgb' & _). rewrite Eg.
-  destruct (wfq_make_args_unique fps fb (c + length gps) Hf) as (fs & fb' & Ef & Hfb' & _). rewrite Ef.
+  destruct (wfq_make_args_unique gps gb c Hg) as (gs & gb' & Eg & Hgb' & _ & Hdg). rewrite Eg.
+  destruct (wfq_make_args_unique fps fb (c + length gps) Hf) as (fs & fb' & Ef & Hfb' & _ & Hdf). rewrite Ef.
   eexists; eexists; split; [reflexivity|].
-  cbn [wfq forallb]. rewrite Hgb', Hfb'. rewrite arg_name_not_op. reflexivity.
+  cbn [wfq forallb has_dup existsb orb negb andb]. rewrite Hgb', Hfb', Hdg, Hdf. rewrite arg_name_not_op. reflexivity.
 Qed.
 
 Lemma frame_lookup_in x ps (vs : list expr) v :
@@ -420,7 +438,7 @@ Qed.
 Definition simple (e : expr) : bool :=
   match e with
   | Const _ | UnaryOp _ _ | BinOp _ _ _ | BoolOp _ _ | Compare _ _ _ | IfExp _ _ _ | Tuple _ | List _
-  | ListComp _ _ | GenExp _ _ | CompFor _ _ _ _ | Other _ _ _ => true
+  | Other _ _ _ => true
   | _ => false
   end.
 
@@ -441,9 +459,6 @@ Proof.
   - destruct cs as [|a [|b [|d [|? ?]]]]; try discriminate. cbn [wfq forallb]. rewrite andb_true_r, andb_assoc; reflexivity.
   - reflexivity.
   - reflexivity.
-  - destruct cs as [|a cs]; [discriminate|]. reflexivity.
-  - destruct cs as [|a cs]; [discriminate|]. reflexivity.
-  - destruct cs as [|a [|b cs]]; try discriminate. cbn [wfq forallb]. rewrite andb_assoc; reflexivity.
   - reflexivity.
 Qed.
 
@@ -543,7 +558,7 @@ Section Step2.
     wfst st -> wfq seq = true -> wfq body = true ->
     post (simp f st bd c (function_call "First" [make_Select seq (Lambda [a] body)])).
   Proof.
-    intros Hst Hs Hb. apply IH; [|assumption]. apply wfq_First. eapply wfq_make_Select; [reflexivity | assumption | assumption].
+    intros Hst Hs Hb. apply IH; [|assumption]. apply wfq_First. eapply wfq_make_Select; [reflexivity | assumption | reflexivity | assumption].
   Qed.
 
   Lemma dict_with_value_post ks vs k (K : option expr -> sres (expr * nat)) :
@@ -608,11 +623,11 @@ Section Step2.
   Lemma post_Lambda st bd c ps b :
     wfst st -> wfq (Lambda ps b) = true -> post (simp (S f) st bd c (Lambda ps b)).
   Proof.
-    intros Hst Hw. cbn [wfq] in Hw. cbn [simp].
+    intros Hst Hw. apply wfq_lam_iff in Hw. destruct Hw as [Hd Hw]. cbn [simp].
     destruct (existsb (fun n => existsb (String.eqb n) bd || stack_mentions st n) ps).
-    - destruct (wfq_make_args_unique ps b c Hw) as (fs & b' & E & Hb' & _). rewrite E.
-      apply post_bind1; [apply IH; assumption|]. intros b'' c1 Hb''. exact Hb''.
-    - apply post_bind1; [apply IH; assumption|]. intros b'' c1 Hb''. exact Hb''.
+    - destruct (wfq_make_args_unique ps b c Hw) as (fs & b' & E & Hb' & _ & Hdf). rewrite E.
+      apply post_bind1; [apply IH; assumption|]. intros b'' c1 Hb''. cbn [post]. apply wfq_lam_iff; split; assumption.
+    - apply post_bind1; [apply IH; assumption|]. intros b'' c1 Hb''. cbn [post]. apply wfq_lam_iff; split; assumption.
   Qed.
 
   Lemma post_called_lambda st bd c ps body args kwn kwv :
@@ -620,38 +635,40 @@ Section Step2.
     post (simp (S f) st bd c (Call (Lambda ps body) args kwn kwv)).
   Proof.
     intros Hst Hw. cbn [simp].
-    assert (Hparts : wfq body = true /\ wfq_all args = true /\ wfq_all kwv = true).
-    { cbn [wfq] in Hw. apply andb_true_iff in Hw. destruct Hw as [Hw Hk]. apply andb_true_iff in Hw. tauto. }
-    destruct Hparts as (Hb & Ha & Hk).
+    assert (Hparts : wfq (Lambda ps body) = true /\ wfq_all args = true /\ wfq_all kwv = true).
+    { cbn [wfq] in Hw |- *. apply andb_true_iff in Hw. destruct Hw as [Hw Hk]. apply andb_true_iff in Hw. tauto. }
+    destruct Hparts as (Hl & Ha & Hk). pose proof (proj2 (proj1 (wfq_lam_iff ps body) Hl)) as Hb.
     destruct (bind_lambda_call ps args kwn kwv) as [given|] eqn:Eb.
     - pose proof (bind_lambda_call_wfq _ _ _ _ _ Eb Ha Hk) as Hg.
       pose proof (mapM_post f IH st bd given c Hst Hg) as H.
       destruct (mapM (simp f st bd) c given) as [[args' c1]| | |]; cbn [sbind] in *; auto.
       destruct H as [Hargs' _].
-      destruct (wfq_make_args_unique ps body c1 Hb) as (fs & b' & E & Hb' & _). rewrite E.
+      destruct (wfq_make_args_unique ps body c1 Hb) as (fs & b' & E & Hb' & _ & _). rewrite E.
       apply IH; [assumption | apply wfst_push; assumption].
-    - apply (post_call_generic f IH); [assumption | cbn [wfq]; exact Hb | assumption | assumption].
+    - apply (post_call_generic f IH); [assumption | exact Hl | assumption | assumption].
   Qed.
 
   Lemma simp_Lambda_shape n st bd c ps b e' c' :
-    simp n st bd c (Lambda ps b) = Ok (e', c') -> exists ps' b', e' = Lambda ps' b' /\ length ps' = length ps.
+    simp n st bd c (Lambda ps b) = Ok (e', c') ->
+    exists ps' b', e' = Lambda ps' b' /\ length ps' = length ps /\ (has_dup ps = false -> has_dup ps' = false).
   Proof.
     destruct n; [discriminate|]. cbn [simp].
     destruct (existsb (fun n0 => existsb (String.eqb n0) bd || stack_mentions st n0) ps).
     - unfold make_args_unique.
       destruct (simp n st (bd ++ _) _ _) as [[b2 c2]| | |]; cbn [sbind]; intros H; inversion H.
-      eexists; eexists; split; [reflexivity | apply fresh_names_length].
+      eexists; eexists; split; [reflexivity | split; [apply fresh_names_length | intros _; apply fresh_names_nodup]].
     - destruct (simp n st (bd ++ ps) c b) as [[b2 c2]| | |]; cbn [sbind]; intros H; inversion H; eauto.
   Qed.
 
   Lemma post_lambda_visit st bd c ps b (K : expr * nat -> sres (expr * nat)) :
-    wfst st -> wfq b = true ->
-    (forall ps' b' c', wfq b' = true -> length ps' = length ps -> post (K (Lambda ps' b', c'))) ->
+    wfst st -> has_dup ps = false -> wfq b = true ->
+    (forall ps' b' c', wfq b' = true -> length ps' = length ps -> has_dup ps' = false -> post (K (Lambda ps' b', c'))) ->
     post (sbind (simp f st bd c (Lambda ps b)) K).
   Proof.
-    intros Hst Hb HK. pose proof (IH st bd c (Lambda ps b) Hb Hst) as H.
+    intros Hst Hd Hb HK. pose proof (IH st bd c (Lambda ps b) (proj2 (wfq_lam_iff ps b) (conj Hd Hb)) Hst) as H.
     destruct (simp f st bd c (Lambda ps b)) as [[e' c']| | |] eqn:E; cbn [sbind post] in *; auto.
-    destruct (simp_Lambda_shape _ _ _ _ _ _ _ _ E) as (ps' & b' & -> & Hlen). apply HK; [exact H | exact Hlen].
+    destruct (simp_Lambda_shape _ _ _ _ _ _ _ _ E) as (ps' & b' & -> & Hlen & Hd').
+    apply HK; [exact (proj2 (proj1 (wfq_lam_iff ps' b') H)) | exact Hlen | exact (Hd' Hd)].
   Qed.
 
   Lemma convolute_shape gps gb fps fb c :
@@ -659,83 +676,83 @@ Section Step2.
     exists x body c', convolute (Lambda gps gb) (Lambda fps fb) c = Ok (Lambda [x] body, c') /\ wfq body = true.
   Proof.
     intros Hg Hf. unfold convolute.
-    destruct (wfq_make_args_unique gps gb c Hg) as (gs & gb' & Eg & Hgb' & _). rewrite Eg.
-    destruct (wfq_make_args_unique fps fb (c + length gps) Hf) as (fs & fb' & Ef & Hfb' & _). rewrite Ef.
+    destruct (wfq_make_args_unique gps gb c Hg) as (gs & gb' & Eg & Hgb' & _ & Hdg). rewrite Eg.
+    destruct (wfq_make_args_unique fps fb (c + length gps) Hf) as (fs & fb' & Ef & Hfb' & _ & Hdf). rewrite Ef.
     eexists; eexists; eexists; split; [reflexivity|].
-    cbn [wfq forallb]. rewrite Hgb', Hfb'. rewrite arg_name_not_op. reflexivity.
+    cbn [wfq forallb]. rewrite Hgb', Hfb', Hdg, Hdf. rewrite arg_name_not_op. reflexivity.
   Qed.
 
   Ltac strs := cbn [is_call_handler existsb simp_call_handlers String.eqb Ascii.eqb Bool.eqb orb andb negb is_lambda is_call_of unpack2].
 
   Lemma post_Select st bd c s ps b :
-    wfst st -> wfq s = true -> wfq b = true ->
+    wfst st -> wfq s = true -> has_dup ps = false -> wfq b = true ->
     post (simp (S f) st bd c (Call (Name "Select") [s; Lambda ps b] [] [])).
   Proof.
-    intros Hst Hs Hb. cbn [simp]. strs.
+    intros Hst Hs Hd Hb. cbn [simp]. strs.
     apply post_bind1; [apply IH; assumption|]. intros parent c1 Hp.
     destruct (is_call_of parent "Select") eqn:E1.
-    - destruct (wfq_handler_shape parent "Select" Hp E1 eq_refl) as (src & fps & fb & -> & Hsrc & Hfb & _). strs.
+    - destruct (wfq_handler_shape parent "Select" Hp E1 eq_refl) as (src & fps & fb & -> & Hsrc & Hdf & Hfb & _). strs.
       destruct (convolute_shape ps b fps fb c1 Hb Hfb) as (x & body & c2 & Ecv & Hbody). rewrite Ecv. cbn [sbind].
-      apply post_lambda_visit; [assumption | assumption|]. intros ps' b' c3 Hb' Hlen'.
-      cbn [post]. eapply wfq_make_Select; [reflexivity | assumption | assumption].
+      apply post_lambda_visit; [assumption | reflexivity | assumption|]. intros ps' b' c3 Hb' Hlen' Hd'.
+      cbn [post]. eapply wfq_make_Select; [reflexivity | assumption | assumption | assumption].
     - destruct (is_call_of parent "SelectMany") eqn:E2.
-      + destruct (wfq_handler_shape parent "SelectMany" Hp E2 eq_refl) as (src & fps & fb & -> & Hsrc & Hfb & Hne). strs.
-        destruct (wfq_make_args_unique fps fb c1 Hfb) as (fs & fb' & E & Hfb' & Hlen). rewrite E.
-        apply IH; [|assumption]. apply wfq_op; [reflexivity | assumption | | ].
-        * eapply wfq_make_Select; [reflexivity | assumption | assumption].
+      + destruct (wfq_handler_shape parent "SelectMany" Hp E2 eq_refl) as (src & fps & fb & -> & Hsrc & Hdf & Hfb & Hne). strs.
+        destruct (wfq_make_args_unique fps fb c1 Hfb) as (fs & fb' & E & Hfb' & Hlen & Hdfs). rewrite E.
+        apply IH; [|assumption]. apply wfq_op; [reflexivity | assumption | assumption | | ].
+        * eapply wfq_make_Select; [reflexivity | assumption | assumption | assumption].
         * intros _ ->. destruct fps; [apply Hne; reflexivity | discriminate].
-      + apply post_lambda_visit; [assumption | assumption|]. intros ps' b' c2 Hb' Hlen'.
-        cbn [post]. eapply wfq_make_Select; [reflexivity | assumption | assumption].
+      + apply post_lambda_visit; [assumption | assumption | assumption|]. intros ps' b' c2 Hb' Hlen' Hd'.
+        cbn [post]. eapply wfq_make_Select; [reflexivity | assumption | assumption | assumption].
   Qed.
 
   Lemma post_SelectMany st bd c s ps b :
-    wfst st -> wfq s = true -> wfq b = true -> ps <> [] ->
+    wfst st -> wfq s = true -> has_dup ps = false -> wfq b = true -> ps <> [] ->
     post (simp (S f) st bd c (Call (Name "SelectMany") [s; Lambda ps b] [] [])).
   Proof.
-    intros Hst Hs Hb Hps. cbn [simp]. strs.
+    intros Hst Hs Hd Hb Hps. cbn [simp]. strs.
     apply post_bind1; [apply IH; assumption|]. intros parent c1 Hp.
     destruct (is_call_of parent "SelectMany") eqn:E1.
-    - destruct (wfq_handler_shape parent "SelectMany" Hp E1 eq_refl) as (src & fps & fb & -> & Hsrc & Hfb & Hne).
-      destruct (wfq_make_args_unique fps fb c1 Hfb) as (fs & fb' & E & Hfb' & Hlen). rewrite E.
+    - destruct (wfq_handler_shape parent "SelectMany" Hp E1 eq_refl) as (src & fps & fb & -> & Hsrc & Hdf & Hfb & Hne).
+      destruct (wfq_make_args_unique fps fb c1 Hfb) as (fs & fb' & E & Hfb' & Hlen & Hdfs). rewrite E.
       destruct fs as [|fp fs]; [destruct fps; [exfalso; apply Hne; reflexivity | discriminate]|].
-      apply IH; [|assumption]. apply wfq_op; [reflexivity | assumption | | intros _; discriminate].
-      apply wfq_op; [reflexivity | assumption | assumption | intros _; assumption].
+      apply IH; [|assumption]. apply wfq_op; [reflexivity | assumption | reflexivity | | intros _; discriminate].
+      apply wfq_op; [reflexivity | assumption | assumption | assumption | intros _; assumption].
     - destruct (is_call_of parent "Select") eqn:E2.
-      + destruct (wfq_handler_shape parent "Select" Hp E2 eq_refl) as (src & fps & fb & -> & Hsrc & Hfb & _). strs.
+      + destruct (wfq_handler_shape parent "Select" Hp E2 eq_refl) as (src & fps & fb & -> & Hsrc & Hdf & Hfb & _). strs.
         destruct (convolute_shape ps b fps fb c1 Hb Hfb) as (x & body & c2 & Ecv & Hbody). rewrite Ecv. cbn [sbind].
-        apply post_lambda_visit; [assumption | assumption|]. intros ps' b' c3 Hb' Hlen'.
-        cbn [post]. apply wfq_op; [reflexivity | assumption | assumption |].
+        apply post_lambda_visit; [assumption | reflexivity | assumption|]. intros ps' b' c3 Hb' Hlen' Hd'.
+        cbn [post]. apply wfq_op; [reflexivity | assumption | assumption | assumption |].
         intros _ ->. discriminate.
-      + apply post_lambda_visit; [assumption | assumption|]. intros ps' b' c2 Hb' Hlen'.
-        cbn [post]. apply wfq_op; [reflexivity | assumption | assumption |].
+      + apply post_lambda_visit; [assumption | assumption | assumption|]. intros ps' b' c2 Hb' Hlen' Hd'.
+        cbn [post]. apply wfq_op; [reflexivity | assumption | assumption | assumption |].
         intros _ ->. destruct ps; [apply Hps; reflexivity | discriminate].
   Qed.
 
   Lemma post_Where st bd c s ps b :
-    wfst st -> wfq s = true -> wfq b = true ->
+    wfst st -> wfq s = true -> has_dup ps = false -> wfq b = true ->
     post (simp (S f) st bd c (Call (Name "Where") [s; Lambda ps b] [] [])).
   Proof.
-    intros Hst Hs Hb. cbn [simp]. strs.
+    intros Hst Hs Hd Hb. cbn [simp]. strs.
     apply post_bind1; [apply IH; assumption|]. intros parent c1 Hp.
     destruct (is_call_of parent "Where") eqn:E1.
-    - destruct (wfq_handler_shape parent "Where" Hp E1 eq_refl) as (src & fps & fb & -> & Hsrc & Hfb & _). strs.
-      apply IH; [|assumption]. apply wfq_op; [reflexivity | assumption | | intros; discriminate].
-      cbn [wfq forallb]. rewrite Hfb, Hb, arg_name_not_op. reflexivity.
+    - destruct (wfq_handler_shape parent "Where" Hp E1 eq_refl) as (src & fps & fb & -> & Hsrc & Hdf & Hfb & _). strs.
+      apply IH; [|assumption]. apply wfq_op; [reflexivity | assumption | reflexivity | | intros; discriminate].
+      cbn [wfq forallb]. rewrite Hfb, Hb, Hdf, Hd, arg_name_not_op. reflexivity.
     - destruct (is_call_of parent "Select") eqn:E2.
-      + destruct (wfq_handler_shape parent "Select" Hp E2 eq_refl) as (src & fps & fb & -> & Hsrc & Hfb & _). strs.
+      + destruct (wfq_handler_shape parent "Select" Hp E2 eq_refl) as (src & fps & fb & -> & Hsrc & Hdf & Hfb & _). strs.
         destruct (convolute_shape ps b fps fb c1 Hb Hfb) as (x & body & c2 & Ecv & Hbody). rewrite Ecv. cbn [sbind].
-        apply post_lambda_visit; [assumption | assumption|]. intros ps' b' c3 Hb' Hlen'.
-        apply IH; [|assumption]. eapply wfq_make_Select; [reflexivity | | assumption].
-        apply wfq_op; [reflexivity | assumption | assumption | intros; discriminate].
+        apply post_lambda_visit; [assumption | reflexivity | assumption|]. intros ps' b' c3 Hb' Hlen' Hd'.
+        apply IH; [|assumption]. eapply wfq_make_Select; [reflexivity | | assumption | assumption].
+        apply wfq_op; [reflexivity | assumption | assumption | assumption | intros; discriminate].
       + destruct (is_call_of parent "SelectMany") eqn:E3.
-        * destruct (wfq_handler_shape parent "SelectMany" Hp E3 eq_refl) as (src & fps & fb & -> & Hsrc & Hfb & Hne). strs.
-          destruct (wfq_make_args_unique fps fb c1 Hfb) as (fs & fb' & E & Hfb' & Hlen). rewrite E.
-          apply IH; [|assumption]. apply wfq_op; [reflexivity | assumption | | ].
-          -- apply wfq_op; [reflexivity | assumption | assumption | intros; discriminate].
+        * destruct (wfq_handler_shape parent "SelectMany" Hp E3 eq_refl) as (src & fps & fb & -> & Hsrc & Hdf & Hfb & Hne). strs.
+          destruct (wfq_make_args_unique fps fb c1 Hfb) as (fs & fb' & E & Hfb' & Hlen & Hdfs). rewrite E.
+          apply IH; [|assumption]. apply wfq_op; [reflexivity | assumption | assumption | | ].
+          -- apply wfq_op; [reflexivity | assumption | assumption | assumption | intros; discriminate].
           -- intros _ ->. destruct fps; [apply Hne; reflexivity | discriminate].
-        * apply post_lambda_visit; [assumption | assumption|]. intros ps' b' c2 Hb' Hlen'.
+        * apply post_lambda_visit; [assumption | assumption | assumption|]. intros ps' b' c2 Hb' Hlen' Hd'.
           destruct (lambda_is_true (Lambda ps' b')); cbn [post]; [assumption|].
-          apply wfq_op; [reflexivity | assumption | assumption | intros; discriminate].
+          apply wfq_op; [reflexivity | assumption | assumption | assumption | intros; discriminate].
   Qed.
 
   Lemma post_method_on_First st bd c fn fargs k1 k2 m margs kwn kwv :
@@ -790,7 +807,7 @@ Proof.
            apply (post_call_generic f IH st bd c); assumption).
     + (* callee is a name *)
       destruct (is_call_handler id) eqn:Hh.
-      * destruct (wfq_handler_shape (Call (Name id) args kwn kwv) id Hw) as (s & ps & b & Heq & Hs & Hb & Hne);
+      * destruct (wfq_handler_shape (Call (Name id) args kwn kwv) id Hw) as (s & ps & b & Heq & Hs & Hd & Hb & Hne);
           [cbn [is_call_of]; apply String.eqb_refl | assumption |].
         inversion Heq; subst.
         destruct (handler_cases id Hh) as [-> | [-> | ->]].
@@ -810,5 +827,8 @@ Proof.
   - (* Lambda *) apply post_Lambda; assumption.
   - (* Dict *) apply (post_Dict f IH); assumption.
   - (* Subscript *) apply post_Subscript; assumption.
-  - (* Raw *) discriminate.
+  - discriminate.       (* comprehensions and raw slots are not well-formed *)
+  - discriminate.
+  - discriminate.
+  - discriminate.
 Qed.
